@@ -106,6 +106,10 @@ class Gen:
         if schema["range"] and r.random() < 0.4:
             op["lsi"].append(dict(name="lix", hash=dict(name=schema["hash"][0]), range=dict(name="f")))
             t["indexes"].append(dict(name="lix", hash=schema["hash"][0], range="f"))
+        if schema["range"] and schema["range"][1] == "S" and schema["hash"][1] == "S" and r.random() < 0.3:
+            # inverted index: keyed on the table's own key attributes
+            op["gsi"].append(dict(name="inv", hash=dict(name=schema["range"][0]), range=dict(name=schema["hash"][0]), throughput=True))
+            t["indexes"].append(dict(name="inv", hash=schema["range"][0], range=schema["hash"][0]))
         if not op["gsi"]: del op["gsi"]
         if not op["lsi"]: del op["lsi"]
         ops.append(op)
@@ -177,8 +181,8 @@ class Gen:
             rv = lambda: (S(r.choice(RANGES)) if rng[1] == "S" else N(r.choice(NUMKEYS)))
         else:
             hn, rn = index["hash"], index["range"]
-            hv = S(r.choice(IDXVALS)) if hn in ("g", "f") else S(r.choice(HASHES))
-            rv = lambda: S(r.choice(IDXVALS))
+            hv = S(r.choice(IDXVALS)) if hn in ("g", "f") else S(r.choice(RANGES if hn == "r" else HASHES))
+            rv = lambda: S(r.choice(IDXVALS if rn in ("g", "f") else HASHES))
         if rn is None or r.random() < 0.4:
             return "%s = :h" % hn, {":h": hv}
         k = r.randrange(8)
@@ -422,6 +426,7 @@ class ExprGen(Gen):
         for tg in targets:
             k = r.random()
             tgt = tg
+            if r.random() < 0.05: tg = tgt = r.choice(RESERVED_SAMPLE)
             if r.random() < 0.25: tgt = tg + r.choice([".x", "[0]", "[1]", ".y.z", "[7]"])
             if r.random() < 0.06:
                 ctx["names"]["#t"] = tg; tgt = "#t" if "." not in tgt and "[" not in tgt else tgt
